@@ -2,10 +2,10 @@ package main
 
 import (
 	"bytes"
-	"math"
 	"errors"
 	"fmt"
 	"io"
+	"math"
 	"strings"
 
 	"github.com/hedzr/logg/slog"
@@ -41,6 +41,21 @@ type bufAPI interface {
 
 var _ bufAPI = (*bytes.Buffer)(nil)
 var _ bufAPI = (*slog.PrintCtx)(nil)
+
+// c19upperReader overrides Read of the reader it embeds (which has a WriteTo of its own).
+type c19upperReader struct {
+	*strings.Reader
+	max int
+}
+
+func (u *c19upperReader) Read(p []byte) (int, error) {
+	if len(p) > u.max {
+		p = p[:u.max]
+	}
+	n, err := u.Reader.Read(p)
+	copy(p[:n], bytes.ToUpper(p[:n]))
+	return n, err
+}
 
 type scriptReader struct {
 	steps []int // >0: return that many bytes; 0: (0,nil); -1: negative count; -2: error; -3: EOF with data; -4: data with a non-EOF error
@@ -339,6 +354,43 @@ func c19diff(c *Ctx) {
 					return fmt.Sprintf("%d %x", len(s), clipB([]byte(s), 64)), err
 				})
 			case 12:
+				if r.P(20) {
+					// a reader that OVERRIDES Read (it passes at most a few bytes per call and upper-cases them) while the
+					// reader it embeds also has a WriteTo method: ReadFrom reads through Read
+					text := strings.Repeat("abc-xyz ", r.Range(1, 300))
+					lim := gen.Pick(r, []int{1, 7, 64, 511, 4096})
+					name = fmt.Sprintf("ReadFrom(a reader that overrides Read over an embedded *strings.Reader, %d bytes)", len(text))
+					mkf := func() func(b bufAPI) (string, error) {
+						rd := &c19upperReader{Reader: strings.NewReader(text), max: lim}
+						return func(b bufAPI) (string, error) { n, err := b.ReadFrom(rd); return fmt.Sprint(n), err }
+					}
+					fa, fb = mkf(), mkf()
+					break
+				}
+				if r.P(15) {
+					// the buffer is filled, mostly read, and then handed ITS OWN unread bytes (Write(b.Bytes()), Write(b.Next(k))):
+					// whatever that gives, it gives it in both implementations
+					S := gen.Pick(r, []int{500, 1000, 1010, 2000, 4000})
+					R := gen.Pick(r, []int{30, 100, 200})
+					own := r.Intn(2)
+					d := data(S)
+					if len(d) < S {
+						d = append(d, make([]byte, S-len(d))...)
+					}
+					one(fmt.Sprintf("Write(%d bytes), Read(%d), Write(its own %s)", S, S-R, []string{"Bytes()", "Next(k)"}[own]), func(b bufAPI) (string, error) {
+						_, _ = b.Write(d)
+						_, _ = b.Read(make([]byte, S-R))
+						var p []byte
+						if own == 0 {
+							p = b.Bytes()
+						} else {
+							p = b.Next(R / 2)
+						}
+						n, err := b.Write(p)
+						return fmt.Sprintf("%d %x", n, clipB(b.Bytes(), 96)), err
+					})
+					break
+				}
 				var steps []int
 				for i := r.Intn(5); i >= 0; i-- {
 					steps = append(steps, gen.Pick(r, []int{1, 5, 100, 511, 512, 513, 2000, 0, 0, -1, -2, -3, -4, -4, -5, -6, -7, -8, -9, -10, -11, -12}))
